@@ -19,11 +19,11 @@ import (
 func init() {
 	Register(&Rule{
 		ID: "C18", Section: "4 C18",
-		Technique: "wiring table agreement by fingerprints (request attribute read by each Fetcher, comparison each Matcher bottoms out in, argument-to-parameter flow in each buildPrimitive arm), normaliser agreement between constructor and Match under the fold-case flag, nil-guard dominance in fetchers, error-to-false flow in PrimitiveCond.Match, boundary evaluation of range comparisons",
+		Technique: "wiring table agreement by fingerprints (request attribute read by each Fetcher, comparison each Matcher bottoms out in, argument-to-parameter flow in each buildPrimitive arm), normaliser agreement between constructor and Match under the fold-case flag, nil-guard dominance in fetchers, error-to-false flow in PrimitiveCond.Match, boundary evaluation of range comparisons, interval evaluation of the operands compared with configured integer bounds / used as table indices (value-domain agreement with the constructor), data dependence of the compared operand on the fetched value and the configured fields",
 		Meta: core.Meta{
 			Level:       "other",
-			Explanation: "Decides: (a) wiring — for each of the primitives in buildPrimitive, the request attribute its fetcher's Fetch returns (access path such as req.HttpRequest.URL.Path, Header.Get(key), CachedQuery().Get(key), Session.Vip, host with the port split off), which literal argument becomes the fetcher key, the comparison family the matcher's Match bottoms out in (sorted search + ==, HasPrefix, HasSuffix, Contains, path-element prefix, MatchString, bytes.Compare range, IP.Equal, hash bucket, time Before/After, Clock), which argument is the pattern and whether the case flag is the documented argument (case_insensitive parameter in docs/en_us/condition) or the reviewed fixed value; fetchers and matchers are identified by what their methods do, not by type name; the five primitives that are conditions on their own (default_t, req_cip_trusted, req_proto_secure, req_query_exist, ses_tls_client_auth) are checked by the expression their Match returns; (b) fold-case agreement — every matcher with a case flag stores the constructor's flag parameter in the field its Match tests, and constructor and Match apply the same normaliser (ToUpper/ToLower) under that flag; matchers using binary search sort their patterns after normalising; HostMatcher normalises unconditionally on both sides and rejects patterns with a port; (c) missing attribute => false — PrimitiveCond.Match returns false on nil request/session/http request and whenever Fetch returns an error, and passes the fetched value to matcher.Match otherwise; every dereference of an optional pointer attribute (HttpResponse, ClientAddr, RemoteAddr, TlsState, URL) in a Fetch/Match method is dominated by a nil test of that pointer; (d) ranges are inclusive — in IPMatcher.Match, TimeMatcher.Match and PeriodicTimeMatcher.Match the branch taken when the value equals a bound reaches `true` and the branch taken just outside does not. Not covered: regular-expression semantics, time-zone arithmetic, the murmur hash and its bucket arithmetic, header canonicalisation inside bfe_http.Header.Get, cookie/query parsing (bfe_http), IPv6 literal hosts in HostFetcher/PortFetcher (both split at the first colon; documented only for host:port).",
-			RuleText:    "obligations = one per primitive arm (wiring), one per matcher type with a case flag, per binary-search matcher, per Fetch/Match method with optional-pointer dereferences, the links of PrimitiveCond.Match, each bound test of the three range matchers",
+			Explanation: "Decides: (a) wiring — for each of the primitives in buildPrimitive, the request attribute its fetcher's Fetch returns (access path such as req.HttpRequest.URL.Path, Header.Get(key), CachedQuery().Get(key), Session.Vip, host with the port split off), which literal argument becomes the fetcher key, the comparison family the matcher's Match bottoms out in (sorted search + ==, HasPrefix, HasSuffix, Contains, path-element prefix, MatchString, bytes.Compare range, IP.Equal, hash bucket, time Before/After, Clock), which argument is the pattern and whether the case flag is the documented argument (case_insensitive parameter in docs/en_us/condition) or the reviewed fixed value; fetchers and matchers are identified by what their methods do, not by type name; the five primitives that are conditions on their own (default_t, req_cip_trusted, req_proto_secure, req_query_exist, ses_tls_client_auth) are checked by the expression their Match returns; (b) fold-case agreement — every matcher with a case flag stores the constructor's flag parameter in the field its Match tests, and constructor and Match apply the same normaliser (ToUpper/ToLower) under that flag; matchers using binary search sort their patterns after normalising; HostMatcher normalises unconditionally on both sides and rejects patterns with a port; (c) missing attribute => false — PrimitiveCond.Match returns false on nil request/session/http request and whenever Fetch returns an error, and passes the fetched value to matcher.Match otherwise; every dereference of an optional pointer attribute (HttpResponse, ClientAddr, RemoteAddr, TlsState, URL) in a Fetch/Match method is dominated by a nil test of that pointer; (d) ranges are inclusive — in IPMatcher.Match, TimeMatcher.Match and PeriodicTimeMatcher.Match the branch taken when the value equals a bound reaches `true` and the branch taken just outside does not; (e) value domains (interval evaluation over SSA: ranges of the time.Time accessors, Go's sign rule for %, conversions, local variables, phis refined by the branch conditions of their edges, module callees with parameters bound to the argument ranges) — in every matcher whose Match compares the tested value with integer bounds of the receiver, every value the tested operand can take lies in the range the constructor can give the bound (PeriodicTimeMatcher: the seconds of day compared with [startTime, endTime] stay in [0, 86399], so a negative remainder for zones west of UTC is reported), the tested operand is computed from the value handed to Match and from every other configured field (the zone offset reaches the comparison), an index into a table of the receiver lies in [0, len) of the table the constructor builds (HashValueMatcher: bucket in [0, HashMatcherBucketSize)), and every field a matcher constructor sets is read by Match. Not covered: regular-expression semantics, the direction and magnitude of the time-zone shift (only that the configured offset reaches the comparison and the compared value stays a second of day), the murmur hash and the distribution of its buckets, header canonicalisation inside bfe_http.Header.Get, cookie/query parsing (bfe_http), IPv6 literal hosts in HostFetcher/PortFetcher (both split at the first colon; documented only for host:port).",
+			RuleText:    "obligations = one per primitive arm (wiring), one per matcher type with a case flag, per binary-search matcher, per Fetch/Match method with optional-pointer dereferences, the links of PrimitiveCond.Match, each bound test of the three range matchers, each integer bound comparison and each table index of a Match method (domain, dependence), each matcher constructor (fields used)",
 			Assumptions: []string{"req, req.Session and req.HttpRequest are non-nil for conditions evaluated by PrimitiveCond (its Match tests them first); the five stand-alone matchers are only evaluated on fully constructed requests"},
 		},
 		Run: runC18,
@@ -44,6 +44,13 @@ func init() {
 			{Name: "in-helper-inverted", File: "bfe_basic/condition/primitive.go", Old: "	return i < len(patterns) && patterns[i] == v", New: "	return i < len(patterns) && patterns[i] != v", Expect: "helper|in"},
 			{Name: "suffix-match-negated", File: "bfe_basic/condition/primitive.go", Old: "	return suffixIn(vs, p.patterns)", New: "	return !suffixIn(vs, p.patterns)", Expect: "match-result|SuffixInMatcher"},
 			{Name: "header-key-in-inverted", File: "bfe_basic/condition/primitive.go", Old: "		if val := req.HttpRequest.Header.Get(key); val != \"\" {", New: "		if val := req.HttpRequest.Header.Get(key); val == \"\" {", Expect: "wiring|req_header_key_in"},
+			{Name: "periodic-zone-by-signed-remainder", File: "bfe_basic/condition/primitive.go", Old: "	tm = tm.In(time.FixedZone(\"zone\", t.offset))\n	hour, minute, second := tm.Clock()\n	seconds := hour*3600 + minute*60 + second\n", New: "	hour, minute, second := tm.UTC().Clock()\n	seconds := (hour*3600 + minute*60 + second + t.offset) % 86400\n", Expect: "value-domain|PeriodicTimeMatcher.Match"},
+			{Name: "hash-bucket-by-signed-remainder", File: "bfe_basic/condition/primitive.go", Old: "	return int(hash % uint64(base))", New: "	return int(int64(hash) % int64(base))", Expect: "value-domain|HashValueMatcher.Match:index"},
+			{Name: "hash-bucket-base-off-by-one", File: "bfe_basic/condition/primitive.go", Old: "	bucket := GetHash([]byte(value), HashMatcherBucketSize)", New: "	bucket := GetHash([]byte(value), HashMatcherBucketSize+1)", Expect: "value-domain|HashValueMatcher.Match:index"},
+			{Name: "periodic-zone-not-applied", File: "bfe_basic/condition/primitive.go", Old: "	tm = tm.In(time.FixedZone(\"zone\", t.offset))\n", New: "", Expect: "value-applied|PeriodicTimeMatcher.Match"},
+			{Name: "hash-case-flag-ignored", File: "bfe_basic/condition/primitive.go", Old: "	if matcher.insensitive {\n		value = strings.ToLower(rawValue)\n	}\n", New: "", Expect: "ctor-fields-used|HashValueMatcher"},
+			{Name: "silent-periodic-zone-by-normalised-remainder", Silent: true, File: "bfe_basic/condition/primitive.go", Old: "	tm = tm.In(time.FixedZone(\"zone\", t.offset))\n	hour, minute, second := tm.Clock()\n	seconds := hour*3600 + minute*60 + second\n", New: "	hour, minute, second := tm.UTC().Clock()\n	seconds := ((hour*3600+minute*60+second+t.offset)%86400 + 86400) % 86400\n"},
+			{Name: "silent-periodic-zone-by-remainder-and-fixup", Silent: true, File: "bfe_basic/condition/primitive.go", Old: "	tm = tm.In(time.FixedZone(\"zone\", t.offset))\n	hour, minute, second := tm.Clock()\n	seconds := hour*3600 + minute*60 + second\n", New: "	hour, minute, second := tm.UTC().Clock()\n	seconds := (hour*3600 + minute*60 + second + t.offset) % 86400\n	if seconds < 0 {\n		seconds += 86400\n	}\n"},
 			{Name: "silent-fetcher-type-renamed-helper", File: "bfe_basic/condition/primitive.go", Old: "func (mf *MethodFetcher) Fetch(req *bfe_basic.Request) (interface{}, error) {\n	if req == nil || req.HttpRequest == nil {\n		return nil, fmt.Errorf(\"fetcher: nil pointer\")\n	}\n\n	return req.HttpRequest.Method, nil", New: "func (mf *MethodFetcher) Fetch(req *bfe_basic.Request) (interface{}, error) {\n	if req == nil || req.HttpRequest == nil {\n		return nil, fmt.Errorf(\"fetcher: nil pointer\")\n	}\n	httpReq := req.HttpRequest\n	method := httpReq.Method\n	return method, nil", Silent: true},
 		},
 	})
@@ -103,15 +110,15 @@ var c18Table = map[string]c18Want{
 	"req_path_regmatch":          {fPath, -1, opRegex, 0, "-"},
 	"req_path_contain":           {fPath, -1, opContain, 0, "arg1"},
 	"req_url_regmatch":           {[]string{"req.HttpRequest.RequestURI"}, -1, opRegex, 0, "-"},
-	"req_query_key_in":           {[]string{"bfe_basic.Request.CachedQuery(req)[", "recv.keys"}, 0, opBypass, -1, "-"},
-	"req_query_key_prefix_in":    {[]string{"bfe_basic.Request.CachedQuery(req)", "prefixIn("}, 0, opBypass, -1, "-"},
+	"req_query_key_in":           {[]string{"true<-[bfe_basic.Request.CachedQuery(req)[recv.keys["}, 0, opBypass, -1, "-"},
+	"req_query_key_prefix_in":    {[]string{"true<-[bfe_basic/condition.prefixIn(next(range(bfe_basic.Request.CachedQuery(req)))#1, recv.keys)"}, 0, opBypass, -1, "-"},
 	"req_query_value_in":         {fQueryV, 0, opIn, 1, "arg2"},
 	"req_query_value_prefix_in":  {fQueryV, 0, opPrefix, 1, "arg2"},
 	"req_query_value_suffix_in":  {fQueryV, 0, opSuffix, 1, "arg2"},
 	"req_query_value_regmatch":   {fQueryV, 0, opRegex, 1, "-"},
 	"req_query_value_contain":    {fQueryV, 0, opContain, 1, "arg2"},
 	"req_query_value_hash_in":    {fQueryV, 0, opHash, 1, "arg2"},
-	"req_cookie_key_in":          {[]string{"bfe_basic.Request.Cookie(req, ", "recv.keys"}, 0, opBypass, -1, "-"},
+	"req_cookie_key_in":          {[]string{"true<-[bfe_basic.Request.Cookie(req, recv.keys["}, 0, opBypass, -1, "-"},
 	"req_cookie_value_in":        {fCookV, 0, opIn, 1, "arg2"},
 	"req_cookie_value_prefix_in": {fCookV, 0, opPrefix, 1, "arg2"},
 	"req_cookie_value_suffix_in": {fCookV, 0, opSuffix, 1, "arg2"},
@@ -120,7 +127,7 @@ var c18Table = map[string]c18Want{
 	"req_port_in":                {[]string{`"80"`, "req.HttpRequest.Host[", `strings.Index(req.HttpRequest.Host, ":")`}, -1, opIn, 0, "false"},
 	"req_tag_match":              {[]string{"req.Tags.TagTable[recv.key]"}, 0, "==,strings.Split", 1, "-"},
 	"req_ua_regmatch":            {[]string{`bfe_http.Header.Get(req.HttpRequest.Header, "User-Agent")`}, -1, opRegex, 0, "-"},
-	"req_header_key_in":          {[]string{"bfe_http.Header.Get(req.HttpRequest.Header, ", "recv.keys"}, 0, opBypass, -1, "-"},
+	"req_header_key_in":          {[]string{"true<-[(bfe_http.Header.Get(req.HttpRequest.Header, recv.keys[", `]) != "") && `}, 0, opBypass, -1, "-"},
 	"req_header_value_in":        {fHdrV, 0, opIn, 1, "arg2"},
 	"req_header_value_prefix_in": {fHdrV, 0, opPrefix, 1, "arg2"},
 	"req_header_value_suffix_in": {fHdrV, 0, opSuffix, 1, "arg2"},
@@ -129,7 +136,7 @@ var c18Table = map[string]c18Want{
 	"req_header_value_hash_in":   {fHdrV, 0, opHash, 1, "arg2"},
 	"req_method_in":              {[]string{"req.HttpRequest.Method"}, -1, opIn, 0, "true"},
 	"res_code_in":                {[]string{"strconv.Itoa(req.HttpResponse.StatusCode)"}, -1, opIn, 0, "false"},
-	"res_header_key_in":          {[]string{"bfe_http.Header.Get(req.HttpResponse.Header, ", "recv.keys"}, 0, opBypass, -1, "-"},
+	"res_header_key_in":          {[]string{"true<-[(bfe_http.Header.Get(req.HttpResponse.Header, recv.keys[", `]) != "") && `}, 0, opBypass, -1, "-"},
 	"res_header_value_in":        {fResHV, 0, opIn, 1, "arg2"},
 	"ses_tls_sni_in":             {[]string{"req.Session.TlsState.ServerName"}, -1, opIn, 0, "true"},
 	"ses_tls_client_ca_in":       {[]string{"req.Session.TlsState.ClientCAName"}, -1, opIn, 0, "false"},
@@ -460,6 +467,7 @@ func runC18(c *core.Ctx) {
 	c18MatchFlow(c)
 	c18NilGuards(c)
 	c18Inclusive(c)
+	c18Domains(c, matcherTypes)
 }
 
 // ---- (b) fold-case agreement -----------------------------------------------------------
@@ -1150,4 +1158,212 @@ func c18Helpers(c *core.Ctx, matcherTypes map[string]*types.Named) {
 		c.Check("helper", h.Name(), h.Pos(), len(problems) == 0, "helper "+h.Name()+"(value, patterns): "+strings.Join(cxUniq(problems), "; "))
 	}
 	c.Min("helper", 4)
+}
+
+// ---- (e) value domains of the range matchers --------------------------------------------
+
+// c18Ctors: New… functions of the condition package by the type they build.
+func c18Ctors(c *core.Ctx) map[string]*ssa.Function {
+	ctors := map[string]*ssa.Function{}
+	for _, fn := range c.P.SrcFuncs(condPkg) {
+		if fn.Parent() != nil || fn.Signature.Recv() != nil || fn.Signature.Results().Len() == 0 || !strings.HasPrefix(fn.Name(), "New") {
+			continue
+		}
+		if pt, ok := fn.Signature.Results().At(0).Type().(*types.Pointer); ok {
+			if n, ok := pt.Elem().(*types.Named); ok {
+				ctors[n.Obj().Name()] = fn
+			}
+		}
+	}
+	return ctors
+}
+
+// c18RecvField: v is a load of field f of the method's receiver; returns f.
+func c18RecvField(fn *ssa.Function, v ssa.Value) *types.Var {
+	fa, ok := rtLoadOf(v).(*ssa.FieldAddr)
+	if !ok || len(fn.Params) == 0 {
+		return nil
+	}
+	if root, fields := rtPathOf(fa.X); root != ssa.Value(fn.Params[0]) || len(fields) != 0 {
+		return nil
+	}
+	return core.FieldObj(fa.X, fa.Field)
+}
+
+// c18Domains decides, for every matcher whose Match compares the value under
+// test with integer bounds held in the receiver or uses it as an index into a
+// table held in the receiver:
+//   - domain: every value the tested operand can take lies in the range the
+//     constructor can give the bound (a bound of 0 / 86399 only means "from
+//     midnight" / "to midnight" if the operand never leaves [0, 86399]); an
+//     index lies in [0, len(table));
+//   - applied: the tested operand is computed from the value handed to Match
+//     and from every other field the constructor sets (a zone offset that is
+//     stored but does not reach the comparison is a parameter that is
+//     ignored);
+//   - used: every field a constructor sets is read by Match.
+func c18Domains(c *core.Ctx, matcherTypes map[string]*types.Named) {
+	ctors := c18Ctors(c)
+	pkgFns := c.P.SrcFuncs(condPkg)
+	tnames := make([]string, 0, len(matcherTypes))
+	for n := range matcherTypes {
+		tnames = append(tnames, n)
+	}
+	sort.Strings(tnames)
+	isInt := func(t types.Type) bool {
+		b, ok := t.Underlying().(*types.Basic)
+		return ok && b.Info()&types.IsInteger != 0
+	}
+	for _, tn := range tnames {
+		nt := matcherTypes[tn]
+		st, ok := nt.Underlying().(*types.Struct)
+		if !ok {
+			continue
+		}
+		m := c18Method(c, types.NewPointer(nt), "Match")
+		if m == nil || len(m.Params) != 2 {
+			continue
+		}
+		ctor := ctors[tn]
+		// ---- used: fields the constructor sets are read by Match (callees inside the package included)
+		if ctor != nil && st.NumFields() > 0 {
+			var scope []*ssa.Function
+			for _, f := range core.TransitiveCallees(m, 2) {
+				if core.FuncPkgRel(f) == condPkg {
+					scope = append(scope, f)
+				}
+			}
+			var unused []string
+			n := 0
+			for i := 0; i < st.NumFields(); i++ {
+				f := st.Field(i)
+				if len(core.FieldStores([]*ssa.Function{ctor}, f)) == 0 {
+					continue
+				}
+				n++
+				if len(core.FieldReads(scope, f)) == 0 {
+					unused = append(unused, f.Name())
+				}
+			}
+			if n > 0 {
+				c.Check("ctor-fields-used", tn, m.Pos(), len(unused) == 0, tn+": "+core.FuncKey(ctor)+" sets "+strings.Join(unused, ", ")+" but Match never reads it: a configured parameter of the primitive has no effect")
+			}
+		}
+		// ---- bounds
+		type cmp struct {
+			bo    *ssa.BinOp
+			other ssa.Value
+			f     *types.Var
+		}
+		var cmps []cmp
+		boundField := map[*types.Var]bool{}
+		core.Instrs(m, func(in ssa.Instruction) {
+			bo, ok := in.(*ssa.BinOp)
+			if !ok {
+				return
+			}
+			switch bo.Op {
+			case token.LSS, token.LEQ, token.GTR, token.GEQ:
+			default:
+				return
+			}
+			if !isInt(bo.X.Type()) {
+				return
+			}
+			if f := c18RecvField(m, bo.Y); f != nil {
+				cmps = append(cmps, cmp{bo, bo.X, f})
+				boundField[f] = true
+			} else if f := c18RecvField(m, bo.X); f != nil {
+				cmps = append(cmps, cmp{bo, bo.Y, f})
+				boundField[f] = true
+			}
+		})
+		for _, cp := range cmps {
+			// the range the constructor can give the bound
+			dom, n := ivl{}, 0
+			for _, s := range core.FieldStores(pkgFns, cp.f) {
+				if s.Fn == m {
+					continue
+				}
+				r := ivOf(s.Store.Val, newIvEnv())
+				if n == 0 {
+					dom = r
+				} else {
+					dom = ivHull(dom, r)
+				}
+				n++
+			}
+			if n == 0 {
+				dom = ivType(cp.f.Type())
+			}
+			got := ivOf(cp.other, newIvEnv())
+			c.Check("value-domain", tn+".Match:"+cp.f.Name(), cp.bo.Pos(), got.within(dom),
+				fmt.Sprintf("%s.Match compares %s, which can take values in %s, with %s, which the constructor keeps in %s: values outside the bound's range make the documented window [start, end] miss instants it contains (Go's %% keeps the sign of the dividend; a wall-clock second of day is never negative)", tn, cxTrim(core.Render(cp.other), 120), got, cp.f.Name(), dom))
+			// applied: computed from the value under test and from the other configured fields
+			deps := ivDepends(cp.other)
+			var missing []string
+			if !deps[m.Params[1]] {
+				missing = append(missing, "the value handed to Match")
+			}
+			if ctor != nil {
+				for i := 0; i < st.NumFields(); i++ {
+					f := st.Field(i)
+					if boundField[f] || len(core.FieldStores([]*ssa.Function{ctor}, f)) == 0 {
+						continue
+					}
+					found := false
+					for d := range deps {
+						if c18RecvField(m, d) == f {
+							found = true
+						}
+					}
+					if !found {
+						missing = append(missing, "the configured "+f.Name())
+					}
+				}
+			}
+			c.Check("value-applied", tn+".Match:"+cp.f.Name(), cp.bo.Pos(), len(missing) == 0, tn+".Match: the operand compared with "+cp.f.Name()+" does not depend on "+strings.Join(missing, " / "))
+		}
+		// ---- tables indexed by a computed value
+		core.Instrs(m, func(in ssa.Instruction) {
+			ia, ok := in.(*ssa.IndexAddr)
+			if !ok {
+				return
+			}
+			f := c18RecvField(m, ia.X)
+			if f == nil {
+				return
+			}
+			if _, isSlice := f.Type().Underlying().(*types.Slice); !isSlice || rtAscendingIndex(ia.Index) {
+				return
+			}
+			if _, isK := ia.Index.(*ssa.Const); isK {
+				return
+			}
+			okLen, minLen := true, int64(ivPosInf)
+			n := 0
+			for _, s := range core.FieldStores(pkgFns, f) {
+				n++
+				l, ok := ivSliceLen(s.Store.Val, newIvEnv())
+				if !ok || l.lo <= 0 {
+					okLen = false
+					continue
+				}
+				if l.lo < minLen {
+					minLen = l.lo
+				}
+			}
+			got := ivOf(ia.Index, newIvEnv())
+			ok = okLen && n > 0 && got.lo >= 0 && got.hi < minLen
+			lenStr := "unknown"
+			if okLen && n > 0 {
+				lenStr = fmt.Sprint(minLen)
+			}
+			c.Check("value-domain", tn+".Match:index("+f.Name()+")", ia.Pos(), ok,
+				fmt.Sprintf("%s.Match indexes %s (length %s as built by the constructor) with %s, which can take values in %s: an index outside the table panics or reads the wrong bucket", tn, f.Name(), lenStr, cxTrim(core.Render(ia.Index), 120), got))
+		})
+	}
+	c.Min("value-domain", 3)
+	c.Min("value-applied", 2)
+	c.Min("ctor-fields-used", 8)
 }
